@@ -200,6 +200,7 @@ var regexCtxs = []Ctx{
 	{"suffix_of_any", ".*", ""},
 	{"bare_alt", "a|", ""},
 	{"literal_affixes", "ab", "cd"},
+	{"escaped_literal", `a\.`, ""},
 }
 
 // plainCtxs: for positions whose value is a plain string: number-, duration- and size-looking values.
